@@ -26,6 +26,25 @@ Theorem C10_regimen_pulses_ok : forall dose s d p n, (0 <= s)%R -> (0 < d)%R -> 
   pulses_ok (regimen_pulses dose s d p n).
 Proof. exact regimen_pulses_ok. Qed.
 
+(* (3b) for every schedule of non-negative rates the amount delivered up to T never decreases in T, lies between
+   0 and the prescribed total (sum of rate x duration), is 0 before the first pulse starts and equals the
+   prescribed total once the last one has ended; a regimen of n doses prescribes n x dose *)
+Theorem C10_delivered_monotone : forall ps T1 T2, rates_nonneg ps -> (T1 <= T2)%R ->
+  (delivered ps T1 <= delivered ps T2)%R.
+Proof. exact delivered_mono. Qed.
+Theorem C10_delivered_bounded : forall ps T, rates_nonneg ps -> pulses_ok ps ->
+  (0 <= delivered ps T <= prescribed ps)%R.
+Proof. exact delivered_bounded. Qed.
+Theorem C10_nothing_before : forall ps T, pulses_ok ps ->
+  List.Forall (fun p => (T <= snd (fst p))%R) ps -> delivered ps T = 0%R.
+Proof. exact delivered_before. Qed.
+Theorem C10_everything_after : forall ps T, pulses_ok ps ->
+  List.Forall (fun p => (snd (fst p) + snd p <= T)%R) ps -> delivered ps T = prescribed ps.
+Proof. exact delivered_after. Qed.
+Theorem C10_regimen_prescribes : forall dose s d p n, (0 < d)%R ->
+  prescribed (regimen_pulses dose s d p n) = (dose * INR n)%R.
+Proof. exact prescribed_regimen. Qed.
+
 (* (4) the regimen table computed by PredictiveModel.get_dosing_regimen lists exactly the dose events
    (time, duration, amount) the event applies up to the final time: single, finite and indefinite *)
 Theorem C10_table_is_spec : forall e f, (0 <= ev_per e)%Z -> table_of_event e (Some f) = table_spec e f.
